@@ -8,7 +8,8 @@ import ClairModel.Model.MatchersLang
     rpmcmp <a> <b>                       -> -1 | 0 | 1
     debcmp <a> <b>                       -> err | hang | -1 | 0 | 1
     debnew <a>                           -> err | hex of NewVersion(a).String()
-    apkcmp <a> <b>                       -> -1 | 0 | 1
+    apkcmp <a> <b>                       -> -1 | 0 | 1     (the lock-step transcription)
+    apkcmp2 <a> <b>                      -> -1 | 0 | 1     (the token-stream formulation)
     apkvalid <a>                         -> true | false
     urlq <s>                             -> err | ok <introduced> <fixed> <lastAffected>
     osv <pkgver> <fixedin> <table>       -> true | false | err | missing:<hex>
@@ -137,7 +138,8 @@ def answer (l : String) : Option String :=
     match VerDeb.newVersion (← str a) with
     | none => pure "err"
     | some v => pure (hexOf v.toStr)
-  | ["apkcmp", a, b] => do pure (ordStr (VerApk.compare (← str a) (← str b)))
+  | ["apkcmp", a, b] => do pure (ordStr (VerApk.compareLoop (← str a) (← str b)))
+  | ["apkcmp2", a, b] => do pure (ordStr (VerApk.compare (← str a) (← str b)))
   | ["apkvalid", a] => do pure (toString (VerApk.valid (← str a)))
   | ["archop", op, a, b, re] => do
     pure (toString (archCmp (← op.toNat?) (← str a) (← str b) (← parseRe re)))
